@@ -134,12 +134,38 @@ def fixed_items():
             body = 'struct X%d\n    f %s.X%d?\n' % (i, nxt, (i + 1) % n) if used else 'struct X%d\n    f Int32\n' % i
             out.append(('%s.stone' % nm, 'namespace %s\n\nimport %s\n\n%s' % (nm, nxt, body)))
         return out
+    import itertools
     for n in (2, 3, 4):
         for used in (True, False):
-            yield ('import-cycle|length %d%s' % (n, '' if used else ' (imports unused)'), False, 'import-acyclic', ring(n, used))
+            files = ring(n, used)
+            # the cycle must be found whichever file the compiler sees first
+            for perm in itertools.permutations(range(n)):
+                yield ('import-cycle|length %d%s, file order %s' % (n, '' if used else ' (imports unused)', ''.join(map(str, perm))), False, 'import-acyclic',
+                       [files[i] for i in perm])
+    # a cycle next to an acyclic part, and a diamond (no cycle)
+    for perm in itertools.permutations(range(4)):
+        files = [('d0.stone', 'namespace d0\n\nimport d1\nimport d2\n\nstruct X0\n    f d1.X1?\n    g d2.X2?\n'), ('d1.stone', 'namespace d1\n\nimport d3\n\nstruct X1\n    f d3.X3?\n'),
+                 ('d2.stone', 'namespace d2\n\nimport d3\n\nstruct X2\n    f d3.X3?\n'), ('d3.stone', 'namespace d3\n\nstruct X3\n    f Int32\n')]
+        yield ('import-diamond|file order %s' % ''.join(map(str, perm)), True, None, [files[i] for i in perm])
+        cyc = list(files)
+        cyc[3] = ('d3.stone', 'namespace d3\n\nimport d2\n\nstruct X3\n    f Int32\n')
+        cyc[2] = ('d2.stone', 'namespace d2\n\nimport d3\n\nstruct X2\n    f d3.X3?\n')
+        yield ('import-cycle|diamond with a two-cycle at the bottom, file order %s' % ''.join(map(str, perm)), False, 'import-acyclic', [cyc[i] for i in perm])
     # a chain of imports is fine
     yield ('import-chain|length 3', True, None, [('c0.stone', 'namespace c0\n\nimport c1\n\nstruct X0\n    f c1.X1\n'), ('c1.stone', 'namespace c1\n\nimport c2\n\nstruct X1\n    f c2.X2\n'),
                                                  ('c2.stone', 'namespace c2\n\nstruct X2\n    f Int32\n')])
+    # names of imported namespaces versus definitions
+    yield ('import-names|imported namespace defines a type named like the importer', True, None,
+           [('a.stone', 'namespace na\n\nimport nb\n\nstruct S\n    f nb.na\n'), ('b.stone', 'namespace nb\n\nstruct na\n    x Int32\n')])
+    yield ('import-names|imported namespace defines an alias and a route named like the importer', True, None,
+           [('b.stone', 'namespace nb\n\nalias na = Int32\n\nroute nc(Void, Void, Void)\n'), ('a.stone', 'namespace na\n\nimport nb\n\nstruct S\n    f nb.na\n'),
+            ('c.stone', 'namespace nc\n\nimport nb\n\nstruct T\n    g nb.na?\n')])
+    for kind, text in (('struct', 'struct nb\n    x Int32\n'), ('union', 'union nb\n    x\n'), ('alias', 'alias nb = Int32\n'), ('route', 'route nb(Void, Void, Void)\n'),
+                       ('annotation', 'annotation nb = Deprecated()\n')):
+        yield ('import-names|import of a namespace named like a local %s' % kind, False, 'symbol-unique',
+               [('a.stone', 'namespace na\n\nimport nb\n\n' + text + '\nstruct S\n    f Int32\n'), ('b.stone', 'namespace nb\n\nstruct T\n    y Int32\n')])
+        yield ('import-names|import (in a second file) of a namespace named like a local %s' % kind, False, 'symbol-unique',
+               [('a.stone', 'namespace na\n\n' + text + '\nstruct S\n    f Int32\n'), ('a2.stone', 'namespace na\n\nimport nb\n'), ('b.stone', 'namespace nb\n\nstruct T\n    y Int32\n')])
     # aliases: a cycle among aliases (directly or through nullables, lists, maps) denotes no type; recursion goes through structs and unions
     for lab, text, ok in (('alias-self', 'alias Aa = Aa\n', False), ('alias-cycle-2', 'alias Aa = Bb\nalias Bb = Aa\n', False), ('alias-cycle-3', 'alias Aa = Bb\nalias Bb = Cc\nalias Cc = Aa\n', False),
                           ('alias-cycle-through-nullable', 'alias Aa = Bb?\nalias Bb = Aa\n', False), ('alias-self-nullable', 'alias Aa = Aa?\n', False),
